@@ -138,6 +138,14 @@ func cdcLoadCodecs(s cdcNoter) (both []*cdcCodec, all []*cdcCodec) {
 	if repo == "" {
 		repo = "/repo"
 	}
+	if os.Getenv(cdcWorkerEnv) != "" {
+		// worker process: the parent has checked the registry against the sources already
+		for _, e := range typegen.Registry() {
+			all = append(all, cdcTypesCodec(e.Name, e.Type, typegen.Dir{Enc: true, Dec: true}))
+		}
+		all = append(all, cdcFuzzCodecs()...)
+		return all, all
+	}
 	scan, err := typegen.ScanRepo(repo)
 	if err != nil {
 		cdcInconclusive("cannot scan %s: %v", repo, err)
